@@ -128,7 +128,9 @@ theorem step_inv (s : State) (op : List String) (h : Inv s) : ∀ o ∈ step s o
   · -- openctx
     split at ho
     · simp at ho; subst ho; exact h
-    · simp at ho; subst ho
+    · split at ho
+      · simp at ho
+      simp at ho; subst ho
       intro c hc
       simp only [List.mem_append, List.mem_singleton] at hc
       rcases hc with hc | rfl
